@@ -114,6 +114,7 @@ class Outcome:
         "transitions",
         "log",
         "maxdiff",
+        "maxdiff_by",
         "harness_error",
     )
 
@@ -126,7 +127,14 @@ class Outcome:
         self.transitions = set()
         self.log = EventLog()
         self.maxdiff = 0.0
+        self.maxdiff_by = {}
         self.harness_error = None
+
+    def note_diff(self, regime: str, value: float):
+        """Record the largest difference that was *within* tolerance, per tolerance regime."""
+        self.maxdiff = max(self.maxdiff, value)
+        if value > self.maxdiff_by.get(regime, -1.0):
+            self.maxdiff_by[regime] = value
 
     def violate(self, inv: str, step: int, detail: str, **cls):
         if len(self.violations) < 12:
@@ -244,6 +252,7 @@ def run_chunk(args):
         "violations": [],
         "digests": {},
         "maxdiff": 0.0,
+        "maxdiff_by": {},
         "harness_errors": [],
         "samples": [],
         "skipped": 0,
@@ -264,6 +273,8 @@ def run_chunk(args):
             agg["sketches"].add(zlib.crc32(out.sketch.encode()) | (len(out.sketch) << 32))
         agg["transitions"].update(out.transitions)
         agg["maxdiff"] = max(agg["maxdiff"], out.maxdiff)
+        for rk, rv in out.maxdiff_by.items():
+            agg["maxdiff_by"][rk] = max(agg["maxdiff_by"].get(rk, 0.0), rv)
         if out.harness_error:
             agg["harness_errors"].append({"index": idx, "error": out.harness_error, "history": history})
         for v in out.violations:
